@@ -297,6 +297,59 @@ func TestC07(t *testing.T) {
 
 		}
 
+		// wide: messages carrying every profile field at once (re-encoding
+		// them needs definition messages with up to 130 fields)
+		if hx.FirstShard() {
+			tab := prof.Table()
+			for _, ft := range prof.FileTypes {
+				for _, sl := range prof.Slots(ft) {
+					mi := tab.Msgs[sl.Msg]
+					if mi == nil || len(mi.Fields) < 30 {
+						continue
+					}
+					for _, be := range []bool{false, true} {
+						def := fitmodel.Rec{IsDef: true, Local: 1, BigEndian: be, Global: sl.Msg}
+						var raw []byte
+						for _, n := range prof.FieldNums(sl.Msg) {
+							fi := mi.Fields[n]
+							bt := fitmodel.MustBase(fi.Base)
+							size := bt.Size * fi.Length
+							if bt.String {
+								size = fi.Length
+							}
+							if size > 255 || size == 0 || len(raw)+size > 60000 {
+								continue
+							}
+							def.Fields = append(def.Fields, fitmodel.FieldDef{Num: n, Size: byte(size), Base: fi.Base})
+							if bt.String {
+								b := make([]byte, size)
+								copy(b, "w")
+								raw = append(raw, b...)
+							} else {
+								for i := 0; i < size; i++ {
+									raw = append(raw, 0x01)
+								}
+							}
+						}
+						st := &fitmodel.Stream{HeaderSize: 12, Proto: 0x20, Recs: []fitmodel.Rec{
+							{IsDef: true, Global: 0, Fields: []fitmodel.FieldDef{{Num: 0, Size: 1, Base: 0}}}, {Raw: []byte{byte(ft)}},
+							def, {Local: 1, Raw: raw}, {Local: 1, Raw: raw},
+						}}
+						x := st.Bytes()
+						rec.Eval("wide", 1)
+						sig, msg, ok, acc := checkInput(rec, x, be)
+						if acc {
+							rec.NonTrivial(hx.FPBytes(x))
+							rec.Class(fmt.Sprintf("wide: %d-field definition accepted", len(def.Fields)), 1)
+						}
+						if !ok {
+							rec.Fail("wide", sig, fmt.Sprintf("%s with all %d fields on the wire: %s", mi.Name, len(def.Fields), msg), inCase{Data: hex.EncodeToString(x), BE: be})
+						}
+					}
+				}
+			}
+		}
+
 		// dedicated reproductions of the open findings
 		if hx.Open("D9") {
 			s := &fitmodel.Stream{HeaderSize: 12, Proto: 0x20, Recs: []fitmodel.Rec{
@@ -339,6 +392,13 @@ func TestC07(t *testing.T) {
 			d := gen.D{T: rt}
 			o := gen.DefaultStreamOpts()
 			o.OddStrings = !hx.Open("D9") // excluded by construction while D9 is open
+			if d.Int(0, 5, "wide") == 0 {
+				// definitions with as many fields as the message has (the
+				// re-encoding then needs definitions of 80+ fields)
+				o.MaxFields = 130
+				o.MaxRecs = 8
+				rec.Class("wide definitions", 1)
+			}
 			s, _ := gen.GenStream(d, o)
 			x := s.Bytes()
 			be := d.Bool("encbe")
